@@ -53,6 +53,10 @@ class C19(Prop):
             {"kind": "dist", "variant": "core", "mat": [[1, 2], [2, 2], [0, 2]], "sign": [1, 1], "line": [1, 1]},
             {"kind": "dist", "variant": "prob", "mat": [[1, 2], [2, 2], [0, 2]], "sign": [1, 1], "line": [1, 1]},
             {"kind": "dist", "variant": "transfn", "mat": [[1, 2], [2, 2], [0, 2]], "sign": [1, 1], "line": [1, 1]},
+            {"kind": "dist", "variant": "prob", "mat": [[8388609, 2], [8388610, 1], [8388608, 0]], "sign": [1, 1], "line": [1, 2]},
+            {"kind": "dist", "variant": "transfn", "mat": [[1000001, 2], [1000002, 1], [1000000, 0]], "sign": [1, -1], "line": [2, 1]},
+            {"kind": "dist", "variant": "core", "mat": [[1000001, 2], [1000002, 1], [1000000, 0]], "sign": [-1, 1], "line": [1, 1]},
+            {"kind": "dominates", "obj1": [1, 2], "cv1": -2, "obj2": [1, 1], "cv2": 0},
             {"kind": "dominates", "obj1": [1, 2], "cv1": 0, "obj2": [1, 2], "cv2": 0},
             {"kind": "dominates", "obj1": [1, 2], "cv1": 1, "obj2": [0, 0], "cv2": 2},
         ]
@@ -95,6 +99,9 @@ class C19(Prop):
                     j = rng.randrange(nobj)
                     for p in pts:
                         p[j] = pts[0][j]
+                if rng.random() < 0.35:                  # translated front: a large level with a small range
+                    off = [rng.choice([0, 2 ** 20, 10 ** 6, 2 ** 23, -(10 ** 7), 12345678]) for _ in range(nobj)]
+                    pts = [[v + o for v, o in zip(p, off)] for p in pts]
                 sign = [rng.choice([1, -1]) for _ in range(nobj)]
                 line = [rng.choice([0, 1, 1, 2, 3]) for _ in range(nobj)]
                 if not any(line):
